@@ -371,6 +371,10 @@ def judge(spec, scenario, history):
     ops = _all_ops(scenario)
     probes = {}
     viol = []
+    ra = next((e for e in history if e["k"] == "runaway"), None)
+    if ra is not None:
+        return [{"rule": "runaway", "op": ra.get("op"), "msg": "the client kept issuing requests beyond every bound of the "
+                 "model (" + str(ra.get("msg")) + "): a finite server script must lead to a finite call"}], {}
     by_op = {}
     for e in history:
         if e.get("op") in ops:
